@@ -157,6 +157,17 @@ var (
 	takeTimeouts int
 )
 
+// noteTimeout: an expected delivery did not arrive within the bound.
+func noteTimeout() {
+	if takeTimeouts++; takeTimeouts >= 4 {
+		takeBound = 50 * time.Millisecond
+	}
+}
+
+// failingFast: so many expected deliveries never arrived that the run is certainly failing; the
+// remaining scripts are skipped (each would wait for deliveries that do not come).
+func failingFast() bool { return takeTimeouts >= 12 }
+
 // take waits (bounded) until n more events have arrived and returns them.
 func (s *realSub) take(n int) []string {
 	deadline := time.After(takeBound)
@@ -178,9 +189,7 @@ func (s *realSub) take(n int) []string {
 			s.mu.Unlock()
 			return append(out, "!closed")
 		case <-deadline:
-			if takeTimeouts++; takeTimeouts >= 4 {
-				takeBound = 50 * time.Millisecond
-			}
+			noteTimeout()
 			s.mu.Lock()
 			out := append([]string(nil), s.got[s.taken:]...)
 			s.taken = len(s.got)
@@ -276,9 +285,9 @@ func (r *real) deliveries(sends int) string {
 					if !suppressed {
 						n++
 					}
-				case <-time.After(waitBound):
-					parts = append(parts, name+"=[!no-equivalence-call]")
-					continue
+				case <-time.After(takeBound):
+					// the subscriber's Pull never consulted the equivalence: the event did not reach it
+					noteTimeout()
 				}
 			}
 		}
